@@ -3,7 +3,9 @@
 // Bounded-exhaustive enumeration of well-typed expression trees (binary operators of all six
 // levels, the conditional, unary minus / not, filter applications, attribute and index leaves;
 // numeric strings — literals, variables and the result of `~` on integers — as operands of the
-// relational operators and of == / != against integers),
+// relational operators and of == / != against integers; leaves that contain commas inside brackets:
+// calls max(a, b), min(a, b, c), pick(i, a, b), indexed list and hash literals with two entries, a
+// call as filter argument, one level of nesting),
 // each printed with several choices of parentheses (minimal per the stated table, full, maximal,
 // whole-expression, and in the thorough tier every subset of the optional pairs) and of spacing,
 // and placed in every syntactic position an expression can stand in. The real engine renders every
@@ -15,6 +17,7 @@ package main
 import (
 	"encoding/json"
 	"fmt"
+	"hash/fnv"
 	"os"
 	"sort"
 	"strings"
@@ -48,6 +51,7 @@ var positions = []position{
 	{name: "set", tmpl: "{%\x04set\x04q\x03=\x03\x00\x04%}{{ q\x02 }}", types: "isb"},
 	{name: "for", tmpl: "{%\x04for\x04q\x04in\x04[\x03\x00\x03]\x04%}{{ q\x02 }}{%\x04endfor\x04%}", types: "isb"},
 	{name: "include", tmpl: "{%\x04include\x04'p'\x04with\x04{\x03'k'\x03:\x03\x00\x03}\x04%}", sub: "p", types: "isb"},
+	{name: "include-1st-key", tmpl: "{%\x04include\x04'p'\x04with\x04{\x03'k'\x03:\x03\x00\x03,\x03'j'\x03:\x030\x03}\x04%}", sub: "p", types: "isb"},
 	{name: "include-2nd-key", tmpl: "{%\x04include\x04'p'\x04with\x04{\x03'j'\x03:\x030\x03,\x03'k'\x03:\x03\x00\x03}\x04%}", sub: "p", types: "isb"},
 	{name: "filter-arg", tmpl: "{{\x03null|default(\x03\x00\x03)\x02\x03}}", types: "isb"},
 	{name: "function-arg", tmpl: "{{\x03id(\x03\x00\x03)\x02\x03}}", types: "isb"},
@@ -171,6 +175,27 @@ func render(r rendering, leaves []leaf) (res string, trace []int) {
 		}
 		return args[0], nil
 	})
+	// pick(i, x0, x1, ...) = x_i: the harness function of the comma-containing leaves
+	e.AddFunction("pick", func(args ...interface{}) (interface{}, error) {
+		if len(args) < 3 {
+			return nil, fmt.Errorf("pick: %d arguments", len(args))
+		}
+		i := -1
+		switch x := args[0].(type) {
+		case int:
+			i = x
+		case int64:
+			i = int(x)
+		case float64:
+			if x == float64(int(x)) {
+				i = int(x)
+			}
+		}
+		if i < 0 || i+1 >= len(args) {
+			return nil, fmt.Errorf("pick: bad index %v with %d arguments", args[0], len(args))
+		}
+		return args[i+1], nil
+	})
 	seen := map[int]bool{}
 	e.AddFunction("k", func(args ...interface{}) (interface{}, error) {
 		if len(args) != 1 {
@@ -217,6 +242,7 @@ type class struct {
 	few   bool // only print / if / set
 	mid   bool // five parenthesis/spacing combinations instead of eight
 	rots  int  // how many leaf rotations to run (best first)
+	twin  bool // with rots = 1: also the best rotation of the other half (plain <-> comma leaves) in two styles
 	cross bool // every parenthesis style x every spacing, plus all optional-parenthesis subsets
 }
 
@@ -236,8 +262,8 @@ func classes(thorough bool) []class {
 		{k: 0, u: 0, rots: 12},
 		{k: 0, u: 1, rots: 12}, {k: 1, u: 0, rots: 12},
 		{k: 0, u: 2, rots: 3}, {k: 1, u: 1, rots: 3}, {k: 2, u: 0, rots: 3},
-		{k: 2, u: 1, rots: 1, mid: true},
-		{k: 3, u: 0, rots: 1, mid: true},
+		{k: 2, u: 1, rots: 1, mid: true, twin: true},
+		{k: 3, u: 0, rots: 1, mid: true, twin: true},
 	}
 }
 
@@ -253,8 +279,11 @@ func (c class) String() string {
 
 var rootTypes = []byte{'i', 'b', 's', 'l'}
 
-func styles(c class, nopt uint) []style {
+func styles(c class, nopt uint, reduced bool) []style {
 	var out []style
+	if reduced {
+		return []style{{par: parMin, sp: spNormal}, {par: parMin, sp: spTight}}
+	}
 	if c.cross {
 		for _, par := range []int{parMin, parFull, parMax, parRoot} {
 			for _, sp := range []int{spNormal, spTight, spWide} {
@@ -315,10 +344,12 @@ type candidate struct {
 	trace      []int
 	structural int
 	dist       int
+	commas     int  // leaves whose spelling contains a comma inside brackets
+	reduced    bool // the twin of a single-rotation class: two styles only
 }
 
-// chooseRotations: the well-defined leaf assignments of the skeleton, the most discriminating first.
-func chooseRotations(sk *node, want int) []candidate {
+// allCandidates: the well-defined, distinct leaf assignments of the skeleton in rotation order.
+func allCandidates(sk *node) []candidate {
 	var cs []candidate
 	seen := map[string]bool{}
 	for r := 0; r < nRot; r++ {
@@ -336,11 +367,91 @@ func chooseRotations(sk *node, want int) []candidate {
 			continue
 		}
 		st, d, _ := analyse(in, v)
-		cs = append(cs, candidate{rot: r, in: in, v: v, trace: tr, structural: st, dist: d})
+		cd := candidate{rot: r, in: in, v: v, trace: tr, structural: st, dist: d}
+		for _, l := range in.leaves {
+			if l.comma {
+				cd.commas++
+			}
+		}
+		cs = append(cs, cd)
+	}
+	return cs
+}
+
+// ranked: the most discriminating first; among equals rotations 6-11 (the int / bool / string leaves
+// are the comma-containing ones) before 0-5 when commaFirst, else in rotation order.
+func ranked(all []candidate, commaFirst bool) []candidate {
+	cs := make([]candidate, 0, len(all))
+	if commaFirst {
+		for _, c := range all {
+			if c.rot >= nRot/2 {
+				cs = append(cs, c)
+			}
+		}
+		for _, c := range all {
+			if c.rot < nRot/2 {
+				cs = append(cs, c)
+			}
+		}
+	} else {
+		cs = append(cs, all...)
 	}
 	sort.SliceStable(cs, func(i, j int) bool { return cs[i].dist > cs[j].dist })
-	if len(cs) > want {
-		cs = cs[:want]
+	return cs
+}
+
+// chooseRotations: the `want` best leaf assignments. Which half of the rotations wins the ties
+// alternates with the skeleton (a hash of its key), so that plain and comma-containing leaves both
+// occur throughout a class that runs a single rotation; with two or more rotations at least one has a
+// comma-containing leaf and at least one has none (when such assignments exist); with twin, the best
+// assignment of the other half is added in two styles.
+func chooseRotations(sk *node, key string, want int, twin bool) []candidate {
+	all := allCandidates(sk)
+	h := fnv.New32a()
+	h.Write([]byte(key))
+	commaFirst := h.Sum32()&1 == 1
+	cs := ranked(all, commaFirst)
+	if len(cs) <= want {
+		return cs
+	}
+	rest := cs[want:]
+	cs = cs[:want:want]
+	if want >= 2 {
+		has := func(comma bool) bool {
+			for _, c := range cs {
+				if (c.commas > 0) == comma {
+					return true
+				}
+			}
+			return false
+		}
+		for _, comma := range []bool{true, false} {
+			if has(comma) {
+				continue
+			}
+			for _, c := range rest {
+				if (c.commas > 0) == comma {
+					cs[want-1] = c
+					break
+				}
+			}
+		}
+	}
+	if twin {
+		other := ranked(all, !commaFirst)
+		for _, c := range other {
+			dup := false
+			for _, x := range cs {
+				if x.rot == c.rot {
+					dup = true
+				}
+			}
+			if !dup && (c.commas > 0) != (cs[0].commas > 0) {
+				c.reduced = true
+				cs = append(cs, c)
+				break
+			}
+		}
 	}
 	return cs
 }
@@ -376,9 +487,9 @@ type mismatch struct {
 	Want     string            `json:"want"`
 }
 
-func runCase(sk *node, c class) *vlib.Outcome {
+func runCase(sk *node, key string, c class) *vlib.Outcome {
 	o := &vlib.Outcome{Counters: map[string]int64{}}
-	cands := chooseRotations(sk, c.rots)
+	cands := chooseRotations(sk, key, c.rots, c.twin)
 	if len(cands) == 0 {
 		o.Class = "no-well-defined-leaf-assignment"
 		o.Counters["skeletons_without_well_defined_leaves"] = 1
@@ -390,6 +501,9 @@ func runCase(sk *node, c class) *vlib.Outcome {
 	for _, cd := range cands {
 		in := cd.in
 		o.Counters["trees"]++
+		if cd.commas > 0 {
+			o.Counters["trees_with_comma_leaves"]++
+		}
 		if in.root.nops >= 2 && cd.dist > 0 {
 			o.Nontrivial = true
 			o.Counters["trees_telling_the_table_from_a_wrong_one"]++
@@ -401,7 +515,7 @@ func runCase(sk *node, c class) *vlib.Outcome {
 		_, nopt := in.print(style{par: parMin})
 		kfApplies := in.hasUnaryOnIndex()
 		negZeroOut, negZeroApplies := in.negativeZeroQuirk()
-		for _, st := range styles(c, nopt) {
+		for _, st := range styles(c, nopt, cd.reduced) {
 			// printer self-test: the printed form read with the stated table is the tree itself
 			src, _ := in.print(st)
 			pn, err := parseWith(src, stated, in.leaves)
@@ -422,6 +536,9 @@ func runCase(sk *node, c class) *vlib.Outcome {
 				r := build(pos, in, st)
 				got, _ := render(r, in.leaves)
 				o.Counters["renders"]++
+				if cd.commas > 0 {
+					o.Counters["renders_with_comma_leaves"]++
+				}
 				if got == want {
 					continue
 				}
@@ -533,7 +650,7 @@ func run(t *vlib.T) {
 				if !t.Owns(key) {
 					return
 				}
-				t.Case(key, func() *vlib.Outcome { return runCase(sk, c) })
+				t.Case(key, func() *vlib.Outcome { return runCase(sk, key, c) })
 			})
 		}
 	}
@@ -562,15 +679,18 @@ func main() {
 		Level: "exploration",
 		Rule: "every well-typed expression tree within the operator bounds of the tier (binary operators of all six levels, ?:, unary -/not, filters, " +
 			"numeric strings ('10', \"30\", '-2', variables holding \"9\" \"-1\" \"5\", i ~ i) under < > <= >= and against integers under == != < >=, " +
-			"attribute/index/literal/variable leaves assigned from fixed pools by rotation, the most discriminating well-defined rotations first), printed with " +
+			"attribute/index/literal/variable leaves and comma-containing leaves of the same values (max(2, a), min(b, a, 2), pick(1, a, xs[1]), [a, 12][1], {'k': b, 'j': 2}['k'], " +
+			"max(a, min(b, o.n)), null|default(pick(1, a, s)), pick(0, \"ab\", ','), [max(2, a), b], ...) assigned from fixed pools by rotation, the most discriminating well-defined rotations first, " +
+			"every skeleton both with and without comma-containing leaves wherever two or more rotations are run (single-rotation classes: quick runs the other kind in two styles, thorough alternates by skeleton)), printed with " +
 			"minimal / full / maximal / whole-expression parentheses (thorough: also every subset of the optional pairs) x normal / tight / wide spacing, in every " +
-			"syntactic position (print, if, elseif, set, for, include-with, filter / function / macro argument, array element, hash value, index); " +
+			"syntactic position (print, if, elseif, set, for, include-with sole / first / second entry, filter / function / macro argument, array element, hash value, index); " +
 			"one case = one tree skeleton; non-trivial = at least two operators and at least one wrong operator table (levels swapped or merged, right grouping, " +
 			"conditional / unary / filter attaching to the wrong operand) gives the minimal form a different value",
 		Assumptions: []string{
 			"the reference evaluator (exact integers, strings, booleans, lists of integers) is transcribed from the statement; the printer is checked against its own table-driven parser on every printed form",
 			"forms the statement leaves open are not generated: not a == b, -a ^ b, -a|abs, string + number, inexact or zero division, % on negatives, exponents outside 0..3, values beyond 2^53, bare printing of booleans, whitespace other than spaces, {..}.k on a literal, ordering of strings that are not canonical decimal integers ('ab', '07', '1.0', ' 9', '1e1'), == between a non-numeric string and a number, substring `in`",
 			"matches is used with /…/-delimited patterns whose meaning is the same in every regular-expression dialect (^a, b$)",
+			"the comma-containing leaves have the obvious values: max / min of integers, pick(i, x0, x1, ...) = x_i (registered by the harness), [x0, x1][i] = x_i, {'k': x, 'j': y}['k'] = x, null|default(x) = x; their value is computed from their structure and asserted equal to the plain leaf they stand in for",
 			"trees larger than the tier's bound, and leaf assignments other than the rotations of the fixed pools, are not explored",
 		},
 		QuickDeadline:    150,
@@ -587,6 +707,9 @@ func main() {
 				}
 				if c.core {
 					s += ", core operators only"
+				}
+				if c.twin {
+					s += ", plus the best rotation of the other leaf kind (plain <-> comma-containing) in min/normal and min/tight"
 				}
 				if c.nsRep {
 					s += ", numeric strings only under < >= (n,n), == (n,i), != (i,n) and as i ~ i"
